@@ -190,3 +190,30 @@ harness! { #[kani::unwind(8)] fn c09_root_update_delete_t() {
     kani::cover!(before_poll, "user 2 could poll before the update");
     core::mem::forget(p);
 } }
+
+// lighter update/delete check for the quick tier: one stream-level record with symbolic flags is
+// revoked by update (to an empty set) or by delete; afterwards NOTHING is allowed on that stream,
+// including through the denormalised poll/send sets.
+fn revoke(by_delete: bool) {
+    let f: [bool; 6] = kani::any();
+    let none = GlobalPermissions { manage_servers: false, read_servers: false, manage_users: false, read_users: false, manage_streams: false, read_streams: false, manage_topics: false, read_topics: false, poll_messages: false, send_messages: false };
+    let mut streams = AHashMap::new();
+    streams.insert(1u32, stream_of(f, false, [None, None]));
+    let mut g = none.clone();
+    g.poll_messages = kani::any();
+    g.send_messages = kani::any();
+    let mut p = Permissioner::default();
+    p.init_permissions_for_user(2, Some(Permissions { global: g, streams: Some(streams) }));
+    if by_delete {
+        p.delete_permissions_for_user(2);
+    } else {
+        p.update_permissions_for_user(2, Some(Permissions { global: none, streams: None }));
+    }
+    assert!(p.poll_messages(2, 1, 1).is_err(), "revoked poll permission still honoured");
+    assert!(p.append_messages(2, 1, 1).is_err(), "revoked send permission still honoured");
+    assert!(p.get_topic(2, 1, 1).is_err() && p.update_topic(2, 1, 1).is_err() && p.create_topic(2, 1).is_err());
+    kani::cover!(f[5] && f[4], "stream-level poll and send had been granted");
+    core::mem::forget(p);
+}
+harness! { #[kani::unwind(8)] fn c09_update_revokes_stream_grants() { revoke(false) } }
+harness! { #[kani::unwind(8)] fn c09_delete_revokes_stream_grants() { revoke(true) } }
